@@ -236,22 +236,21 @@ func (c *client) Execute(
 			c.wg.Add(1)
 		}
 		c.mutex.Unlock()
-		// Handle signals to the step
-		if signalsToStep != nil {
-			go func() {
-				defer c.wg.Done()
-				c.executeWriteLoop(stepData.RunID, signalsToStep)
-			}()
-		}
 		// Setup channels for ATP v2
 		err := c.prepareResultChannels(cborReader, stepData, signalsFromStep)
 		if err != nil {
+			if signalsToStep != nil {
+				c.wg.Done() // the signal loop is not started for a run that does not start
+			}
 			return NewErrorExecutionResult(err)
 		}
 	}
 	if err := c.sendCBOR(workStartMsg); err != nil {
 		c.logger.Errorf("Step '%s' failed to write start work message: %v", stepData.ID, err)
 		if c.atpVersion > 1 {
+			if signalsToStep != nil {
+				c.wg.Done() // as above
+			}
 			// The server never saw this run, so no result will come for it.
 			c.mutex.Lock()
 			delete(c.runningStepResultEntries, stepData.RunID)
@@ -264,6 +263,15 @@ func (c *client) Execute(
 		return NewErrorExecutionResult(fmt.Errorf("failed to write work start message (%w)", err))
 	}
 	c.logger.Debugf("Step '%s' started, waiting for response...", stepData.ID)
+	if c.atpVersion > 1 && signalsToStep != nil {
+		// Handle signals to the step. The loop starts only now that the work start message is out: a signal that is
+		// already waiting in the channel would otherwise be written first, reach a plugin that does not know the run
+		// yet and be dropped - and a step that needs it would never finish.
+		go func() {
+			defer c.wg.Done()
+			c.executeWriteLoop(stepData.RunID, signalsToStep)
+		}()
+	}
 
 	return c.getResult(stepData, cborReader)
 }
